@@ -1330,6 +1330,21 @@ def reshape(ctx, a, shape, origin=None, order='C'):
         # opaque flat vector indexed by C-order cell number -> nd array of the same atoms
         maker = a.label[1]
         return maker(shape)
+    if a.ndim == 1 and a.segs is None and not a.label:
+        # a plain 1-D array -> n-D in C order: element (i, j, ..) is the flat element at i*stride_i + j*stride_j + ..
+        strides = []
+        acc = ONE
+        for d in reversed(shape):
+            strides.append(acc)
+            acc = acc * d
+        strides = list(reversed(strides))
+
+        def fn1(idx):
+            pos = ZERO
+            for i, s_ in zip(idx, strides):
+                pos = pos + i * s_
+            return a.at((pos,))
+        return Arr(shape, fn1, a.kind, origin=origin, root=a.root)
     raise AnalysisError(f"reshape {tuple(map(str, a.shape))} -> {tuple(map(str, shape))} is not modelled")
 
 
